@@ -63,7 +63,8 @@ CLAIMS['C10'] = dict(
           'published reserved word (list generated from the reference on every run), refuses to rebind an existing name in strict '
           'mode (immutability), leaves the table unchanged on refusal, and otherwise changes exactly that one binding (whole-map '
           'postcondition); a scope snapshot is a copy; a clean (module) VM starts with no bindings. That the translator emits Bind '
-          'for let and the parser refuses env is not covered.'),
+          'for let and the parser refuses env is not covered. '
+          'Static side (unit typecheck_scope): in FuncDef::derive_shape the body is typed in outer-bindings-overridden-by-parameters, inference happens in a local copy (the caller\'s table only sees what typing the parameter constraint expressions did), and no type hole named after a parameter survives in the exported function shape (close_param_holes); the Symbol arm leaves the table unchanged.'),
     design_ref='DESIGN.md §5 C10',
     note=('Trusted: Verus/Z3; BTreeMap modelled by prelude/vmap.rs (documented std behaviour over an abstract map); the reserved-word '
           'BTreeSet contains exactly the literal list in vm.rs (read from the source on every run); extraction rules in evidence.'),
@@ -75,7 +76,8 @@ CLAIMS['C14'] = dict(
           'same source is an error with the world unchanged; on success exactly one file changes, fs\' == fs.insert(source.with_extension('
           'ext(format)), conv(format, value)) (whole-map equality), with ext proved equal to each real file_ext; if the value cannot be '
           'converted or the format is unknown the result is an error and the file system is unchanged (no new, empty or truncated '
-          'artifact); `convert` pushes the lossy-UTF-8 string of the same bytes. I/O errors of create/write are outside the property.'),
+          'artifact); `convert` pushes the lossy-UTF-8 string of the same bytes. I/O errors of create/write are outside the property. '
+          'Command level (unit build_cmd): `ucg build` attempts every listed file and every .ucg entry of listed directories (any depth with -r), in command-line order, each starting from an empty import value cache, never stops at a failure, and exits non-zero iff some file failed.'),
     design_ref='DESIGN.md §5 C14',
     note=('Trusted: Verus/Z3; Converter::convert as a deterministic function of (converter, value) writing only to its writer; '
           'File::create / write_all / PathBuf::with_extension / BTreeSet / HashMap models in prelude/out_hook_world.rs; RefCell borrows '
@@ -164,7 +166,8 @@ CLAIMS['C06'] = dict(
           'field of both), symbol-table key set and memo cache framed; with named constraints: memo-cache safety (in-progress marker, no '
           'out-of-range index, results recorded) and TERMINATION on all shapes including self-referential constraints. NOT covered: '
           'correctness of narrowing through named constraints (least fix point), Func/Module shape arms (stubbed), derive_shape of '
-          'expressions, the constraint grammar, placement of CheckConstraint by the translator.'),
+          'expressions, the constraint grammar, placement of CheckConstraint by the translator. '
+          'Unit typecheck_scope: the Let arm of the checker binds exactly name -> shape (every other key untouched) where the shape is the VALUE\'s unless that is unknown, refuses with exactly one diagnostic and binds nothing when narrowing fails, and for shapes without named constraints accepts iff compat(value shape, constraint shape).'),
     design_ref='DESIGN.md §5 C06',
     note=('Trusted: Verus/Z3; container equality (List/Tuple arms of Val::equal) and the IR conversion of containers are uninterpreted stubs; '
           'f64 comparisons are functions of their operands; Option::is_none_or / Result::unwrap_or specs; .iter().any() through a verified '
@@ -225,7 +228,8 @@ CLAIMS['C20'] = dict(
           'the cursor lie on the requested line with start <= end; semantic-token deltas decode to real token positions. NOT covered: '
           'the JSON-RPC loop, the diagnostics-equal-fresh-server and parser-agreement clauses, the workspace index: those are sampled '
           'by the bounded stand-ins (a Python LSP client driving the real server: positions on every shipped file, seeded sessions, '
-          'malformed requests), with the deviations found listed as known findings.'),
+          'malformed requests), with the deviations found listed as known findings. '
+          'Unit lsp_loop (the real main_loop / handle_request / handle_notification / publish_diagnostics plus the pinned lsp-server handle_shutdown / extract / Response constructors, verified, over a ghost-logged channel): every request of the five kinds gets exactly one response with its id (ok iff its params are readable), in arrival order; an unreadable request or notification never ends the session; the loop ends only at exit, shutdown+exit, exhausted input or a closed channel; didOpen / didChange (LAST content change) / didClose publish exactly one diagnostics notification for that uri; a request of an unknown method gets no reply (stated as the code behaves).'),
     design_ref='DESIGN.md §5 C20',
     note=('Trusted: Verus/Z3; lsp_types Position/Range/SemanticToken extracted from the pinned dependency; verified loop models for '
           'position/find/rfind/chars().take(); tokens in document order and documents below 4 GiB per dimension (requires); '
@@ -244,7 +248,8 @@ CLAIMS['C09'] = dict(
           'import stack and not cached is an error with no evaluation, and every evaluating VM carries its own file on its import stack. '
           'NOT covered deductively: which spellings normalize / is_relative / join identify (uninterpreted), VM::run re-entering the hook '
           '(so "once per build" end to end is the bounded stand-in\'s), the op cache, the type checker\'s separate static resolution, '
-          'FileBuilder seeding of the main file; working directories and file trees are sampled by the bounded stand-in.'),
+          'FileBuilder seeding of the main file; working directories and file trees are sampled by the bounded stand-in. '
+          'Unit link_ops (see C16) proves the linker half: paths are normalized before they are compared or loaded, so an import cycle through `..` terminates.'),
     design_ref='DESIGN.md §5 C09',
     note=('Trusted: Verus/Z3; extraction rules and substs listed in evidence (Visitor/Walker monomorphised to Rewriter; RefCell<Environment> -> &mut '
           'Environment + ghost world; VM::run logs one run record and havocs); path::normalize, Path::parent/join/is_relative, str::replace '
@@ -262,7 +267,8 @@ CLAIMS['C16'] = dict(
           '(Checker::resolve_import): looked up and stored under ONE key, the normalized join of the checker\'s directory and the path; a hit yields '
           'exactly the shape a fresh resolution of THAT import expression yields (positioned at it, not at the first importer); failures leave no '
           'entry (S1-S3). NOT covered: the induction over the import graph, VM::run determinism, when output locks are released '
-          '(FileBuilder::build), the assertion collector (C13 units); batches / orders / repetitions are sampled by the bounded stand-in where present.'),
+          '(FileBuilder::build), the assertion collector (C13 units); batches / orders / repetitions are sampled by the bounded stand-in where present. '
+          'Unit link_ops: FileBuilder::link_ops looks up exactly the set of files reachable through imports, each NORMALIZED and once, terminates when that set is finite, and reports a load error at the import that names the file; FileBuilder::build releases every output lock before loading and evaluates the file once in its own directory. Unit build_cmd: every file of a batch is attempted and starts from an empty value cache (see C14).'),
     design_ref='DESIGN.md §5 C16',
     note=('Trusted: Verus/Z3; extraction rules and substs listed in evidence; parser, checker walk, translator, file reads as uninterpreted functions of '
           'their inputs (file system fixed during the run); a successful type check does not depend on the import stack it started with (explicit '
